@@ -935,6 +935,22 @@ func (g *gen) piece(depth int) {
 		g.scope = append(g.scope, variable{name: name, k: k})
 	case 4:
 		vs := append(append(g.vars(kInt), g.vars(kStr)...), g.vars(kBool)...)
+		if g.dataAllowed() && g.pct("assigndata", 25) {
+			// assignment to a name that comes from the CALLER's data (a scalar: re-binding it is not mutating shared
+			// data; it must stay a matter of this execution's own scopes, at top level, in loops and in function bodies)
+			g.feat("assign_to_context_variable")
+			g.frames = 0
+			switch g.intn("assigndatawhich", 0, 2) {
+			case 0:
+				g.tag("<%", "n1 = n1 + "+g.operand(kInt, 1, "infix-right:+"), "%>")
+			case 1:
+				g.tag("<%", "s2 = s2 + \"!\"", "%>")
+			default:
+				g.tag("<%", "b0 = !b0", "%>")
+			}
+			g.tag("<%=", []string{"n1", "s2", "b0"}[g.intn("assigndatashow", 0, 2)], "%>")
+			break
+		}
 		if len(vs) == 0 {
 			g.tag("<%=", g.expr(kStr, 1, "output"), "%>")
 			break
